@@ -1,10 +1,97 @@
 import Driver.Util
+import MpcVerif.Model.Determinism
 
 namespace Drv.C08
+open Mpc Mpc.Det Drv
 
-/-- Line-protocol handler of property C08 (stub). -/
-def handle (_args : List String) : String := "bad-op"
+def listOf (s : String) : List String :=
+  if s == "-" then [] else s.splitOn ","
+
+def joinOr (l : List String) : String :=
+  if l.isEmpty then "-" else ",".intercalate l
+
+def bytesOf (hex : String) : Option (List Nat) :=
+  (Aes.bytesOfHex hex).map fun b => b.toList.map (·.toNat)
+
+def hexOf (bs : List Nat) : String :=
+  Aes.hexOfBytes (ByteArray.mk (bs.map (fun n => UInt8.ofNat n)).toArray)
+
+/-- `name:nvars:nanon:imp1,imp2` -/
+def parsePkg (s : String) : Option (Pkg String) :=
+  match s.splitOn ":" with
+  | [n, nv, na, imps] => do
+    some { name := n, imports := listOf imps, nvars := ← nv.toNat?, nanon := ← na.toNat? }
+  | _ => none
+
+def parseLib (s : String) : Option (List (Pkg String)) :=
+  (s.splitOn ";").mapM parsePkg
+
+def renderBlock (withAnon : Bool) (b : String × Option Nat) : String :=
+  match b.2 with
+  | some k => if withAnon then s!".{b.1}@{k}" else s!".{b.1}"
+  | none => s!".{b.1}"
+
+/--
+`dc <hex names in hand-over order>`            → names in the order DefineConstants wires them
+`ts <hexkey=val,...> <t>`                      → key found by Type.String's search, or `none`
+`init <lib> <root>`                            → init blocks emitted by Package.Init
+`hist <k> <lib> <root> <calls>`                → init blocks and function labels of k compilations on one Compiler
+-/
+def handle (args : List String) : String :=
+  match args with
+  | ["dc", names] =>
+    match (listOf names).mapM bytesOf with
+    | none => "bad-op"
+    | some ns =>
+      let consts : List Const := ns.map fun n => { name := n, bits := [] }
+      let sorted := sortConsts consts
+      -- the allocation order of defineConstants is the sorted order
+      let alloc := defineConstants consts
+      if alloc.map (·.1) != sorted.map (·.name) then "model-inconsistent" else
+      joinOr (sorted.map fun c => hexOf c.name)
+  | ["ts", tbl, t] =>
+    let entries := (listOf tbl).filterMap fun e =>
+      match e.splitOn "=" with
+      | [k, v] => v.toInt?.map fun v => (k, v)
+      | _ => none
+    match t.toInt? with
+    | none => "bad-op"
+    | some t =>
+      match findKey entries t with
+      | some k => k
+      | none => "none"
+  | ["init", lib, root] =>
+    match parseLib lib with
+    | none => "bad-op"
+    | some lib =>
+      let st := initPkg (lib.length + 1) lib root { initialized := [], blocks := [], anon := 0 }
+      joinOr (st.blocks.map (renderBlock true))
+  | ["hist", k, lib, root, calls] =>
+    match k.toNat?, parseLib lib with
+    | some k, some lib =>
+      match getPkg lib root with
+      | none => "bad-op"
+      | some m =>
+        let prog : Prog String := { main := m, mainFuncs := [root], calls := listOf calls }
+        let outs := compileRepeated lib prog k Cache.empty
+        "/".intercalate (outs.map fun o =>
+          "init=" ++ joinOr (o.initBlocks.map (renderBlock false)) ++ ";fn=" ++
+            joinOr (o.funcLabels.map fun f => s!"{f.1}#{f.2}"))
+    | _, _ => "bad-op"
+  | _ => "bad-op"
 
 end Drv.C08
 
-def main : IO Unit := Drv.mainLoop Drv.C08.handle
+/-- The command word is part of the op here (one driver, four ops). -/
+def main : IO Unit := do
+  let stdin ← IO.getStdin
+  let stdout ← IO.getStdout
+  let rec loop : Nat → IO Unit
+    | 0 => pure ()
+    | n + 1 => do
+      let line ← stdin.getLine
+      if line.isEmpty then return ()
+      let line := if line.endsWith "\n" then (line.dropEnd 1).toString else line
+      stdout.putStrLn (Drv.C08.handle (Drv.splitWs line))
+      loop n
+  loop 100000000
